@@ -459,6 +459,25 @@ pub fn generate(rng: &mut Rng) -> Workload {
     let fn_ref = |c: usize, d: usize| -> String { if chain_in_namespace[c] { format!("Chain{}::step{}_{}", c, c, d) } else { format!("step{}_{}", c, d) } };
     let mut chains_text = String::new();
     let forward_declare = rng.chance(1, 3);
+    // a chain of functions that touch no global at all and reach a wave intrinsic at the bottom (Metal turns the intrinsic into an
+    // implicit parameter of every function above the use); longer than the chains that thread globals
+    let wave_depth: usize = if rng.chance(1, 3) { 7 + rng.below(6) } else { 0 };
+    if wave_depth > 0 {
+        let intrinsic = *rng.pick(&["WaveGetLaneIndex()", "WaveGetLaneCount()", "WaveGetLaneIndex() + WaveGetLaneCount()"]);
+        let mut fns: Vec<String> = Vec::new();
+        for d in (0..wave_depth).rev() {
+            let inner = if d + 1 == wave_depth { intrinsic.to_string() } else { format!("wave_level{}(x + {}u)", d + 1, d) };
+            fns.push(format!("uint wave_level{}(uint x) {{\n    return x ^ ({});\n}}\n", d, inner));
+        }
+        if rng.chance(1, 2) {
+            rng.shuffle(&mut fns);
+            let protos: Vec<String> = (0..wave_depth).map(|d| format!("uint wave_level{}(uint x);", d)).collect();
+            chains_text.push_str(&protos.join("\n"));
+            chains_text.push_str("\n\n");
+        }
+        chains_text.push_str(&fns.join("\n"));
+        chains_text.push('\n');
+    }
     for c in 0..n_chains {
         let mut fns: Vec<String> = Vec::new();
         let mut protos: Vec<String> = Vec::new();
@@ -596,6 +615,9 @@ pub fn generate(rng: &mut Rng) -> Workload {
         main_text.push_str(&format!("[numthreads({}, {}, 1)]\n", *rng.pick(&[8, 16, 32, 64]), *rng.pick(&[1, 2, 4])));
     }
     main_text.push_str("void Main(uint3 dtid : SV_DispatchThreadID) {\n    uint r = dtid.x;\n");
+    if wave_depth > 0 {
+        main_text.push_str("    r += wave_level0(r);\n");
+    }
     for c in 0..n_chains {
         main_text.push_str(&format!("    r += {}(ADD(r, {}));\n", fn_ref(c, 0), lit(rng, n_const)));
     }
